@@ -12,7 +12,8 @@ RISKY = {"Minus", "Div", "Mod", "Exp", "Mul2", "ShiftLeft", "ShiftRight", "GetBi
 
 class Cfg:
     def __init__(self, mode="app", version=10, max_depth=4, max_stmts=5, subs=0, effects=True, loops=True,
-                 exits=True, dyn=False, wide=False, notes=False, breaks=True, byref=True, req_slots=True):
+                 exits=True, dyn=False, wide=False, notes=False, breaks=True, byref=True, req_slots=True, recursive=False,
+                 call_bias=0.0, control_in_operand=False):
         self.__dict__.update(locals())
         del self.__dict__["self"]
 
@@ -31,6 +32,7 @@ class G:
         self.cur_sub: Sub | None = None
         self.counters = set()
         self.stats = {}
+        self.operand = 0
 
     def note(self, k):
         self.stats[k] = self.stats.get(k, 0) + 1
@@ -39,7 +41,7 @@ class G:
     def leaf(self, ty):
         r = self.r
         c = r.random()
-        cands = [v for v in self.vars if v.ttype == ty and v.uid in self.assigned]
+        cands = [v for v in self.visible() if v.ttype == ty and v.uid in self.assigned]
         if cands and c < 0.3:
             self.note("load")
             return ("load", r.choice(cands))
@@ -78,6 +80,10 @@ class G:
         r = self.r
         if d <= 0 or r.random() < 0.25:
             return self.leaf(ty)
+        if self.cfg.call_bias and r.random() < self.cfg.call_bias:
+            callable_ = [s for s in self.subs if s.ret == ty and self.can_call(s)]
+            if callable_:
+                return self.call(r.choice(callable_), d)
         c = r.random()
         if c < 0.62:
             cands = [n for n, o in OPS.items() if o["ret"] == ty and op_ok(o, self.cfg)]
@@ -106,8 +112,12 @@ class G:
         if c < 0.95:
             # Seq with a value at the end
             self.note("seq-expr")
-            return ("seq", self.stmts(d - 1, r.choice([0, 1, 2])) + [self.expr(ty, d - 1)])
-        callable_ = [s for s in self.subs if s.ret == ty and s.body is not None and self.can_call(s)]
+            self.operand += 1
+            try:
+                return ("seq", self.stmts(d - 1, r.choice([0, 1, 2])) + [self.expr(ty, d - 1)])
+            finally:
+                self.operand -= 1
+        callable_ = [s for s in self.subs if s.ret == ty and self.can_call(s)]
         if callable_:
             s = r.choice(callable_)
             return self.call(s, d)
@@ -118,13 +128,27 @@ class G:
         return self.leaf(ty)
 
     def can_call(self, s):
-        return True
+        if self.no_calls:
+            return False
+        if self.cfg.recursive:
+            return True
+        return s.body is not None
+
+    def visible(self):
+        return [v for v in self.vars if self.owner.get(v.uid) in (None, self.cur_sub.sid if self.cur_sub else None)]
 
     def call(self, s: Sub, d):
         args = []
-        for kind, pv in s.params:
+        for j, (kind, pv) in enumerate(s.params):
+            if self.cfg.recursive and j == 0:
+                # depth counter: strictly decreasing along every call chain, so recursion terminates
+                if self.cur_sub is None:
+                    args.append(("int", self.r.choice([0, 1, 2, 3])))
+                else:
+                    args.append(("op", "Minus", [("param", 0), ("int", 1)]))
+                continue
             if kind == "ref":
-                cands = [v for v in self.vars if v.ttype == pv.ttype and v.uid in self.assigned]
+                cands = [v for v in self.visible() if v.ttype == pv.ttype and v.uid in self.assigned]
                 if not cands:
                     v = self.new_var(pv.ttype)
                     cands = [v]
@@ -137,7 +161,9 @@ class G:
     def new_var(self, ty, slot=None):
         v = Var(ty, slot)
         self.vars.append(v)
-        self.pre_init.append(v)
+        owner = self.cur_sub.sid if self.cur_sub is not None else None
+        self.owner[v.uid] = owner
+        self.pre_init.setdefault(owner, []).append(v)
         self.assigned.add(v.uid)
         return v
 
@@ -149,12 +175,14 @@ class G:
         if d <= 0:
             c = c * 0.45
         if c < 0.22:
-            cands = [v for v in self.vars if v.uid not in self.counters]
+            cands = [v for v in self.visible() if v.uid not in self.counters]
             if not cands or r.random() < 0.2:
                 ty = r.choice([U, U, B])
                 slot = None
                 if cfg.req_slots and r.random() < 0.2:
                     free = [s for s in range(0, 256) if s not in {v.slot for v in self.vars}]
+                    if self.cur_sub is not None:
+                        free = [None]
                     slot = r.choice(free)
                 v = self.new_var(ty, slot)
             else:
@@ -197,18 +225,19 @@ class G:
             return ("cond", arms)
         if c < 0.8 and cfg.loops:
             return self.loop(d)
-        if c < 0.86 and self.in_loop and cfg.breaks:
+        ctl_ok = self.operand == 0 or cfg.control_in_operand
+        if c < 0.86 and self.in_loop and cfg.breaks and ctl_ok:
             self.note("break/continue")
             inner = ("break",) if r.random() < 0.5 else ("continue",)
             return ("if", self.expr(U, d - 1), inner, None)
-        if c < 0.9 and cfg.exits:
+        if c < 0.9 and cfg.exits and ctl_ok:
             self.note("early-exit")
             if self.cur_sub is not None:
                 ex = ("ret", None if self.cur_sub.ret == N else self.expr(self.cur_sub.ret, d - 1))
             else:
                 ex = r.choice([("approve",), ("reject",), ("ret", self.expr(U, d - 1)), ("err",)])
             return ("if", self.expr(U, d - 1), ex, None)
-        callable_ = [s for s in self.subs if s.ret == N and s.body is not None and self.can_call(s)]
+        callable_ = [s for s in self.subs if s.ret == N and self.can_call(s)]
         if callable_:
             return self.call(r.choice(callable_), d)
         if cfg.notes and r.random() < 0.5:
@@ -253,6 +282,8 @@ class G:
         r = self.r
         nparams = r.choice([0, 1, 2, 3])
         params = []
+        if self.cfg.recursive:
+            params.append(("val", Var(U)))
         for _ in range(nparams):
             kind = "ref" if (self.cfg.byref and r.random() < 0.2) else "val"
             params.append((kind, Var(r.choice([U, U, B]))))
@@ -260,33 +291,51 @@ class G:
         s = Sub(sid, r.choice(["f", "g", "helper", "my_sub", "x1"]) + str(sid), params, ret)
         return s
 
+    def sub_body(self, s: Sub, d):
+        body = self.stmts(d, self.r.choice([0, 1, 2]))
+        if s.ret == N:
+            return body if body else [("op", "PopU", [("int", 0)])]
+        return body + [self.expr(s.ret, d)]
+
     def fill_sub(self, s: Sub):
         self.cur_sub = s
         saved_loop = self.in_loop
         self.in_loop = 0
         d = self.cfg.max_depth - 1
-        body = self.stmts(d, self.r.choice([0, 1, 2]))
-        if s.ret == N:
-            s.body = ("seq", body) if body else ("seq", [("op", "PopU", [("int", 0)])])
+        if self.cfg.recursive:
+            self.no_calls = True
+            base = self.sub_body(s, max(1, d - 1))
+            self.no_calls = False
+            rec = self.sub_body(s, d)
+            init = [("store", v, ("int", 0) if v.ttype == U else ("bytes", b"")) for v in self.pre_init.get(s.sid, [])]
+            s.body = ("seq", init + [("if", ("op", "EqU", [("param", 0), ("int", 0)]), ("seq", base), ("seq", rec))])
         else:
-            s.body = ("seq", body + [self.expr(s.ret, d)])
+            body = self.sub_body(s, d)
+            init = [("store", v, ("int", 0) if v.ttype == U else ("bytes", b"")) for v in self.pre_init.get(s.sid, [])]
+            s.body = ("seq", init + body)
         self.cur_sub = None
         self.in_loop = saved_loop
 
     def program(self) -> Program:
         r, cfg = self.r, self.cfg
-        self.pre_init: list[Var] = []
+        self.pre_init = {}
         self.assigned = set()
+        self.owner = {}
+        self.no_calls = False
         for _ in range(r.choice([0, 1, 2, 3])):
             self.new_var(r.choice([U, U, B]))
         for sid in range(cfg.subs):
             self.subs.append(self.gen_sub(sid))
         # bodies may call subroutines with a smaller id (no recursion here; recursive families are separate)
         all_subs = self.subs
-        self.subs = []
-        for s in all_subs:
-            self.fill_sub(s)
-            self.subs.append(s)
+        if cfg.recursive:
+            for s in all_subs:
+                self.fill_sub(s)
+        else:
+            self.subs = []
+            for s in all_subs:
+                self.fill_sub(s)
+                self.subs.append(s)
         body = self.stmts(cfg.max_depth, r.choice(range(1, cfg.max_stmts + 1)))
         tail = r.random()
         if tail < 0.4:
@@ -295,7 +344,7 @@ class G:
             last = ("ret", self.expr(U, cfg.max_depth - 1))
         else:
             last = self.expr(U, cfg.max_depth - 1)
-        init = [("store", v, ("int", 0) if v.ttype == U else ("bytes", b"")) for v in self.pre_init]
+        init = [("store", v, ("int", 0) if v.ttype == U else ("bytes", b"")) for v in self.pre_init.get(None, [])]
         main = ("seq", init + body + [last])
         return Program(cfg.mode, main, self.vars, self.subs, self.dvars)
 
